@@ -22,6 +22,7 @@ EXTENDS Integers, Sequences, FiniteSets, TLC, SequencesExt, FiniteSetsExt, Json,
 CONSTANTS
   MinRows, MaxRows,   \* shapes of MinRows..MaxRows rows
   HMax,               \* H values 0..HMax
+  MinPeaks,           \* only shapes with at least this many interior strict local maxima (0 = all): many-pocket configurations
   DoEmit,
   StalePinch,         \* mutant: sweep keeps the stale pinch row after an insertion above the pinch (defect fixed by 5ea7bf0)
   SkipBetween,        \* mutant: rows between the pinches are not zeroed
@@ -80,7 +81,8 @@ SetNP(t, J, v) == [r \in 1..Len(t) |-> IF (r - 1) \in J THEN [t[r] EXCEPT !.NP =
 ---------------------------------------------------------------------------
 (* the machine *)
 
-Shapes == UNION { [1..n -> 0..HMax] : n \in MinRows..MaxRows }
+Peaks(f) == Cardinality({ j \in 2..(Len(f) - 1) : f[j - 1] < f[j] /\ f[j] > f[j + 1] })
+Shapes == { f \in UNION { [1..n -> 0..HMax] : n \in MinRows..MaxRows } : MinPeaks = 0 \/ Peaks(f) >= MinPeaks }
 
 Init ==
   /\ shape \in Shapes
